@@ -14,7 +14,7 @@ def register(R):
     register_run(R)
     STAGE = dict(event=True, returns="any", exsures=["prefix_of(old(listof(CASE._cleanups)), listof(CASE._cleanups))"],
                  modifies=["list(CASE._cleanups)", "CASE.force_failure"],
-                 ensures=["result is not CAUGHT", "prefix_of(old(listof(CASE._cleanups)), listof(CASE._cleanups))"])
+                 ensures=["ret is not CAUGHT", "prefix_of(old(listof(CASE._cleanups)), listof(CASE._cleanups))"])
     # a cleanup / user function called through _run_user: same rules
     R.shape("UserStage", __call__=dict(STAGE))
     R.shape("AMethod")
@@ -83,8 +83,8 @@ def register(R):
                returns="any",
                ensures=["len(%s) == 0" % STACK,                         # no cleanup is left registered
                         "prefix_of(%s, %s)" % (X0, X),
-                        "(result is self.exception_caught) == (len(%s) > len(%s))" % (X, X0),     # sentinel iff some cleanup raised
-                        "result is self.exception_caught or result is None",
+                        "(ret is self.exception_caught) == (len(%s) > len(%s))" % (X, X0),     # sentinel iff some cleanup raised
+                        "ret is self.exception_caught or ret is None",
                         "stages(hist(self.case)) == stages(old(hist(self.case)))",
                         "hist(self.result) == old(hist(self.result))"],
                loops={0: dict(
@@ -160,7 +160,7 @@ def register_core(R):
                         "is_snoc(hinit(hist(result))) and is_outcome_ev(hlast(hinit(hist(result))))",
                         "hinit(hinit(hist(result))) == snoc(H0, call('startTest', [self.case], {}))",
                         "any(x is exc for x in self._exceptions)", "not isinstance(exc, Exception)"],
-               ensures=["result is old(result)" if False else "True",
+               ensures=["ret is result",
                         "is_snoc(hist(result)) and hlast(hist(result)) == call('stopTest', [self.case], {})",
                         "is_snoc(hinit(hist(result))) and is_outcome_ev(hlast(hinit(hist(result))))",
                         "hinit(hinit(hist(result))) == snoc(H0, call('startTest', [self.case], {}))",
